@@ -3,7 +3,7 @@ import re
 
 import z3
 
-from .models import model, D
+from .models import _meth, model, D
 from .values import (Cell, Ref, Adt, VecV, MapV, IterV, EnumC, Sym, Opaque, UNIT, Panic, Unsupported,
                      clone_val, some, none, ok, err)
 
@@ -70,7 +70,7 @@ def m_instant_add_assign(it, name, a):
 @model(r'<(Instant|Duration) as PartialOrd>::(ge|gt|le|lt)', r'<(Instant|Duration) as PartialEq>::(eq|ne)')
 def m_time_cmp(it, name, a):
     x, y = it.deref(a[0]).f[0], it.deref(a[1]).f[0]
-    op = name.split('::')[-1]
+    op = _meth(name)
     return {'ge': lambda: x >= y, 'gt': lambda: x > y, 'le': lambda: x <= y, 'lt': lambda: x < y,
             'eq': lambda: x == y, 'ne': lambda: x != y}[op]()
 
@@ -338,7 +338,7 @@ def m_str_eq(it, name, a):
 def m_str_test(it, name, a):
     s = S(it, a[0])
     p = _pat(it, a[1]) if not isinstance(it.deref(a[1]), Adt) else None
-    op = name.split('::')[-1]
+    op = _meth(name)
     if p is None:
         clo = as_callable_ref(it, a[1])
         cs = chars_of(s)
@@ -375,7 +375,7 @@ def m_str_find(it, name, a):
         idx = [s.find(c) for c in p if s.find(c) >= 0]
         i = min(idx) if idx else -1
     else:
-        i = s.find(p) if name.endswith('::find') else s.rfind(p)
+        i = s.find(p) if _meth(name) == 'find' else s.rfind(p)
     if i < 0:
         return none()
     return some(len(s[:i].encode('utf-8')))
@@ -388,7 +388,7 @@ _WS = ' \t\n\x0b\x0c\r\x85\xa0áš€â€€â€â€‚â€ƒâ€„â€…â€†â€‡â€ˆâ€‰â€Šâ€¨â€©â€¯âŸã€
               'core::str::<impl str>::trim_left', 'core::str::<impl str>::trim_right'))
 def m_str_trim(it, name, a):
     s = S(it, a[0])
-    op = name.split('::')[-1]
+    op = _meth(name)
     if isinstance(s, SStr):
         cs = list(s.chars)
 
@@ -415,7 +415,7 @@ def m_str_trim(it, name, a):
 def m_str_trim_matches(it, name, a):
     s = conc(S(it, a[0]))
     p = _pat(it, a[1])
-    op = name.split('::')[-1]
+    op = _meth(name)
     ps = p if isinstance(p, list) else [p]
     if op == 'strip_prefix':
         for q in ps:
@@ -445,7 +445,7 @@ def m_str_trim_matches(it, name, a):
               'str::<impl str>::to_ascii_lowercase', 'str::<impl str>::to_ascii_uppercase'))
 def m_str_case(it, name, a):
     s = conc(S(it, a[0]))
-    op = name.split('::')[-1]
+    op = _meth(name)
     if op == 'to_lowercase':
         return s.lower()
     if op == 'to_uppercase':
@@ -466,7 +466,7 @@ def m_str_eq_ignore_case(it, name, a):
               'core::str::<impl str>::rsplitn'))
 def m_str_split(it, name, a):
     s = conc(S(it, a[0]))
-    op = name.split('::')[-1]
+    op = _meth(name)
     if op in ('splitn', 'rsplitn'):
         n, p = a[1], _pat(it, a[2])
         if n == 0:
@@ -504,7 +504,7 @@ def m_str_lines(it, name, a):
 def m_str_split_once(it, name, a):
     s = conc(S(it, a[0]))
     p = _pat(it, a[1])
-    i = s.find(p) if name.endswith('::split_once') else s.rfind(p)
+    i = s.find(p) if _meth(name) == 'split_once' else s.rfind(p)
     if i < 0:
         return none()
     return some(Adt('()', None, [s[:i], s[i + len(p):]]))
@@ -530,10 +530,10 @@ def m_str_index(it, name, a):
         lo, hi = _range_bounds(it, a[1], len(b))
         r = b[lo:hi].decode('utf-8')
     except (Panic, UnicodeDecodeError):
-        if name.endswith('::get'):
+        if _meth(name) == 'get':
             return none()
         raise Panic('byte index is out of bounds or not a char boundary')
-    return some(r) if name.endswith('::get') else r
+    return some(r) if _meth(name) == 'get' else r
 
 
 @model(r'core::str::<impl str>::parse::<.*>', r'<(\w+) as FromStr>::from_str')
@@ -598,9 +598,11 @@ def m_char_from_u32(it, name, a):
               'std::ffi::OsStr::to_str', 'std::ffi::OsStr::to_string_lossy', 'std::path::Path::display'))
 def m_path_identity(it, name, a):
     s = S(it, a[0])
-    op = name.split('::')[-1]
+    op = _meth(name)
     if op in ('to_str',):
         return some(s)
     if op == 'into_string':
         return ok(s)
     return s
+
+from . import serdemodel  # noqa: E402,F401
